@@ -443,22 +443,186 @@ def posix_check(case, obs, stop_at_crash=True):
 # POSIX tree as the reference state).  Each returns True when the history
 # contains the pattern anywhere on a host.
 
+class Ghost:
+    """Per-host ghost state of the known-class predicates (mirrored literally by
+    coq/Fs/FsKnown.v).  `classes` returns the known classes the step falls into,
+    given the reference tree and durable shadow BEFORE the step; `update` moves
+    the ghost, given the same plus whether the step succeeded."""
+
+    def __init__(self):
+        self.gone = set()        # paths at which a file was unlinked / renamed away since the last crash
+        self.gdirs = set()       # paths at which a directory was removed since the last crash
+        self.rtargets = set()    # new names of file renames since the last crash
+        self.pren = []           # (ino, f, t): clean file renames not yet flushed by a sync_dir
+        self.half = False        # a cross-directory rename was flushed on the destination side only
+        self.stale = set()       # old names left marked durable by such a flush (survives crashes)
+        self.open_paths = {}     # slot -> path the handle was opened with
+
+    def stale_handle(self, fs, slot):
+        hd = fs.handles.get(slot)
+        p = self.open_paths.get(slot)
+        if hd is None or p is None:
+            return False
+        try:
+            r = fs.lookup(p)
+        except Err:
+            r = None
+        return r is None or r[0] != "file" or r[1] != hd["ino"]
+
+    def classes(self, st, dur):
+        name = st[0].split("@")[0]
+        fs = dur.fs
+        out = []
+        if name == "crash":
+            return out
+        if self.half:
+            out.append("RenameCrossDir")
+        if name == "dump":
+            return out
+        if name in ("rmdir", "rmdir_all", "unlink", "rename", "open", "spit", "mkdir") and "/" in st[2:4]:
+            out.append("RootOp")
+        if name in ("write_at", "read_at", "write", "read", "seek", "set_len", "flen", "sync_all", "sync_data") \
+                and self.stale_handle(fs, st[2]):
+            out.append("StaleHandle")
+        touched = None
+        if name == "open":
+            flags = st[4].replace("k", "")
+            k = fs.kind(st[3])
+            creat = "c" in flags or "n" in flags
+            if k is None and creat and st[3] in self.gone:
+                out.append("Recreate")
+            if k is None and creat and st[3] in self.gdirs:
+                out.append("KindSwap")
+            if k is None and creat and st[3] in self.stale:
+                out.append("RenameCrossDir")
+            if k == "file" and "t" in flags and "w" in flags and "n" not in flags:
+                try:
+                    Posix.open_mode(flags)
+                    touched = fs.lookup(st[3])[1]
+                except Err:
+                    pass
+        if name == "spit":
+            k = fs.kind(st[2])
+            if k is None and st[2] in self.gone:
+                out.append("Recreate")
+            if k is None and st[2] in self.gdirs:
+                out.append("KindSwap")
+            if k is None and st[2] in self.stale:
+                out.append("RenameCrossDir")
+            if k == "file":
+                touched = fs.lookup(st[2])[1]
+        if name in ("write_at", "write", "set_len") and fs.h(st[2]) is not None and fs.h(st[2])["w"]:
+            if name == "set_len" or (st[4] if name == "write_at" else st[3]):
+                touched = fs.h(st[2])["ino"]
+        if touched is not None and any(r[0] == touched for r in self.pren):
+            out.append("RenameFile")            # (e) written while its rename is not yet flushed
+        if name in ("rmdir", "rmdir_all") and any(is_prefix(st[2], r[2]) for r in self.pren):
+            out.append("RenameFile")            # (f) the emptiness check does not see a file renamed into the directory
+        if name == "sync_dir" and fs.kind(st[2]) == "dir":
+            for ino, f, t in self.pren:
+                pf, pt = parent(f), parent(t)
+                if (st[2] == pf or st[2] == pt) and pf != pt:
+                    if st[2] == pf:
+                        out.append("RenameCrossDir")    # (g) old parent first: the new name can never become durable
+                    elif dur.dent.get(f) != ino and not dur.persisted(ino):
+                        out.append("RenameCrossDir")    # (h) no inode on disk yet: the flushed rename moves nothing
+        if name == "rename":
+            k = fs.kind(st[2])
+            if k == "file":
+                ino = fs.lookup(st[2])[1]
+                if st[2] == st[3]:
+                    out.append("RenameSelf")
+                elif self.rename_ok(fs, st[2], st[3]):
+                    kd = fs.kind(st[3])
+                    if (ino in dur.dirty or (kd == "file" and fs.lookup(st[3])[1] in dur.dirty)
+                            or any(r[0] == ino for r in self.pren) or st[3] in self.gone or st[3] in self.rtargets):
+                        out.append("RenameFile")        # (a) (b) (d) (c)
+            elif k == "dir":
+                out.append("RenameDir")
+        if name == "mkdir" and fs.kind(st[2]) is None and st[2] in self.gone:
+            out.append("KindSwap")
+        if name == "mkdir_all" and fs.kind(st[2]) is None:
+            cs = comps(st[2])
+            for k2 in range(1, len(cs) + 1):
+                q = "/" + "/".join(cs[:k2])
+                if fs.kind(q) is None and q in self.gone:
+                    out.append("KindSwap")
+        return out
+
+    @staticmethod
+    def rename_ok(fs, f, t):
+        import copy
+        try:
+            copy.deepcopy(fs).rename(f, t)
+            return True
+        except Err:
+            return False
+
+    def clean_rename(self, st, dur):
+        """the step is a rename outside RenameFile / RenameSelf: it joins the pending renames"""
+        fs = dur.fs
+        if st[0].split("@")[0] != "rename" or fs.kind(st[2]) != "file" or st[2] == st[3]:
+            return False
+        return self.rename_ok(fs, st[2], st[3]) and "RenameFile" not in self.classes(st, dur)
+
+    def update(self, st, dur):
+        """ghost after the step (dur = state BEFORE the step)"""
+        name = st[0].split("@")[0]
+        fs = dur.fs
+        if name == "crash":
+            self.gone, self.gdirs, self.rtargets, self.pren, self.half = set(), set(), set(), [], False
+            self.open_paths = {}
+            return
+        if name == "dump":
+            return
+        if name == "sync_dir" and fs.kind(st[2]) == "dir":
+            keep = []
+            for ino, f, t in self.pren:
+                pf, pt = parent(f), parent(t)
+                if st[2] != pf and st[2] != pt:
+                    keep.append((ino, f, t))
+                elif pf == pt or st[2] == pf:
+                    pass
+                elif dur.dent.get(f) == ino:
+                    self.stale.add(f)           # (i) fine, except that the old name keeps its durable mark
+                elif dur.persisted(ino):
+                    self.half = True            # (h) until the next crash the old name is visible again
+            self.pren = keep
+        if name == "rename" and fs.kind(st[2]) == "file":
+            if self.clean_rename(st, dur):
+                self.pren.append((fs.lookup(st[2])[1], st[2], st[3]))
+            self.gone.add(st[2])
+            self.rtargets.add(st[3])
+        if name == "unlink" and fs.kind(st[2]) == "file":
+            self.gone.add(st[2])
+        if name in ("rmdir", "rmdir_all") and fs.kind(st[2]) == "dir":
+            self.gdirs.add(st[2])
+            if name == "rmdir_all":
+                def walk(pth, node):
+                    for nm, sub in node.items():
+                        q = pth.rstrip("/") + "/" + nm
+                        if isinstance(sub, dict):
+                            self.gdirs.add(q)
+                            walk(q, sub)
+                        else:
+                            self.gone.add(q)
+                walk(st[2], fs.lookup(st[2])[1])
+
+    def after_open(self, st, fs_after):
+        if st[0].split("@")[0] == "open" and fs_after.h(st[2]) is not None:
+            self.open_paths[st[2]] = st[3]
+
+
 def history_features(case, obs=None, upto=None):
-    """Set of feature names present in the history (per whole case).  With crashes
-    in the history the reference tree after a crash is the durable image, which
-    depends on the recorded sync coins / torn draws in [obs]."""
+    """Set of feature names present in the history (per whole case): the known
+    classes (Ghost.classes) plus descriptive features.  With crashes in the
+    history the reference tree after a crash is the durable image, which depends
+    on the recorded sync coins / torn draws in [obs]."""
     n = case["cfg"].get("nhosts", 1)
     durs = [Durable(case["cfg"].get("block_size")) for _ in range(n)]
+    ghosts = [Ghost() for _ in range(n)]
     decs = (obs or {}).get("decisions") or [[] for _ in case["steps"]]
     feats = set()
-    # per host: set of inodes whose length was ever reduced while ... (see ShrinkExtend)
-    shrunk = [dict() for _ in range(n)]       # ino -> min length since last full sync
-    open_paths = [dict() for _ in range(n)]   # slot -> path the handle was opened with
-    gone = [set() for _ in range(n)]          # paths at which a file was removed / renamed away / replaced
-    gone_dirs = [set() for _ in range(n)]     # paths at which a directory was removed since the last crash
-    pend_ren = [[] for _ in range(n)]         # clean file renames not yet flushed by a sync_dir
-    half = [[] for _ in range(n)]             # cross-directory renames flushed on the destination side only
-    stale = [set() for _ in range(n)]         # old names whose durable mark was left behind by such a flush (survives crashes)
     for si, st in enumerate(case["steps"]):
         if upto is not None and si > upto:
             break
@@ -466,21 +630,17 @@ def history_features(case, obs=None, upto=None):
         if name == "tick":
             continue
         h = st[1]
+        dur, gh = durs[h], ghosts[h]
+        fs = dur.fs
+        feats.update(gh.classes(st, dur))
         if name == "dump":
-            if half[h]:
-                feats.add("RenameCrossDir")
             continue
-        fs = durs[h].fs
-        hosts = [d.fs for d in durs]
         if name == "crash":
             feats.add("crash")
-            durs[h].crash(decs[si] if si < len(decs) else [])
-            gone[h].clear()
-            gone_dirs[h].clear()
-            open_paths[h].clear()
-            pend_ren[h] = []
-            half[h] = []
+            gh.update(st, dur)
+            dur.crash(decs[si] if si < len(decs) else [])
             continue
+        # descriptive features (not classes)
         if name == "open":
             flags = st[4].replace("k", "")
             try:
@@ -490,147 +650,31 @@ def history_features(case, obs=None, upto=None):
             k = fs.kind(st[3])
             if k == "dir":
                 feats.add("OpenOnDir")
-            if k is None and st[3] in gone[h] and ("c" in flags or "n" in flags):
-                feats.add("Recreate")
-            if k is None and st[3] in gone_dirs[h] and ("c" in flags or "n" in flags):
-                feats.add("KindSwap")
-            if k == "file":
-                ino = fs.lookup(st[3])[1]
-                if "t" in flags and "w" in flags and len(fs.data[ino]) > 0:
-                    feats.add("Shrink")
-        if name == "spit" and fs.kind(st[2]) == "file":
-            if len(fs.data[fs.lookup(st[2])[1]]) > 0:
+            if k == "file" and "t" in flags and "w" in flags and len(fs.data[fs.lookup(st[3])[1]]) > 0:
                 feats.add("Shrink")
+        if name == "spit" and fs.kind(st[2]) == "file" and len(fs.data[fs.lookup(st[2])[1]]) > 0:
+            feats.add("Shrink")
         if name == "spit" and fs.kind(st[2]) == "dir":
             feats.add("OpenOnDir")
-        if name == "spit" and fs.kind(st[2]) is None and st[2] in gone[h]:
-            feats.add("Recreate")
-        if name == "spit" and fs.kind(st[2]) is None and st[2] in gone_dirs[h]:
-            feats.add("KindSwap")
-        if name == "set_len" and fs.h(st[2]) and fs.h(st[2])["w"]:
-            if st[3] < len(fs.data[fs.h(st[2])["ino"]]):
-                feats.add("Shrink")
+        if name == "set_len" and fs.h(st[2]) and fs.h(st[2])["w"] and st[3] < len(fs.data[fs.h(st[2])["ino"]]):
+            feats.add("Shrink")
         if name == "unlink" and fs.kind(st[2]) == "file":
             feats.add("RemoveFile")
-            gone[h].add(st[2])
-        gone_before = set(gone[h])
         if name == "rename" and fs.kind(st[2]) == "file":
-            gone[h].add(st[2])
-            gone[h].add(st[3])
-        # ---- file renames: what is a defect and what is not (see known_findings.txt) ----
-        dur = durs[h]
-        if half[h]:
-            # a cross-directory rename out of a directory whose entry for the file was not durable
-            # has been flushed by the destination's sync_dir only: until the next crash the old
-            # name is visible again
-            feats.add("RenameCrossDir")
-        if ((name == "open" and ("c" in st[4] or "n" in st[4]) and fs.kind(st[3]) is None and st[3] in stale[h])
-                or (name == "spit" and fs.kind(st[2]) is None and st[2] in stale[h])):
-            feats.add("RenameCrossDir")
-        touched = None                      # inode receiving a data operation in this step
-        if name in ("write_at", "write", "set_len") and fs.h(st[2]) is not None and fs.h(st[2])["w"]:
-            if name == "set_len" or (st[4] if name == "write_at" else st[3]):
-                touched = fs.h(st[2])["ino"]
-        if name == "open" and fs.kind(st[3]) == "file" and "t" in st[4] and "w" in st[4] and "n" not in st[4]:
-            try:
-                Posix.open_mode(st[4].replace("k", ""))
-                touched = fs.lookup(st[3])[1]
-            except Err:
-                pass
-        if name == "spit" and fs.kind(st[2]) == "file":
-            touched = fs.lookup(st[2])[1]
-        if touched is not None and any(r["ino"] == touched for r in pend_ren[h]):
-            feats.add("RenameFile")         # written while its rename is not yet flushed
-        if name in ("rmdir", "rmdir_all") and any(parent(r["t"]) == st[2] or is_prefix(st[2], r["t"]) for r in pend_ren[h]):
-            feats.add("RenameFile")         # the emptiness check does not see a file renamed into the directory
-        if name == "sync_dir" and fs.kind(st[2]) == "dir":
-            keep = []
-            for r in pend_ren[h]:
-                pf, pt = parent(r["f"]), parent(r["t"])
-                if st[2] != pf and st[2] != pt:
-                    keep.append(r)
-                elif pf == pt:
-                    pass                    # same directory: creation and rename are flushed together
-                elif st[2] == pf:
-                    feats.add("RenameCrossDir")   # source side first: the new name can never become durable
-                elif dur.dent.get(r["f"]) == r["ino"]:
-                    stale[h].add(r["f"])    # durable source entry, destination synced: fine, except that the old
-                                            # name keeps its durable mark (matters if a file is created there again)
-                elif not dur.persisted(r["ino"]):
-                    feats.add("RenameCrossDir")   # no inode on disk yet: the flushed rename moves nothing
-                else:
-                    half[h].append(r)
-            pend_ren[h] = keep
-        if name == "rename":
-            k = fs.kind(st[2])
-            try:
-                fs2 = None
-                kd = fs.kind(st[3])
-            except Err:
-                kd = None
-            ok_rename = False
-            if k == "file":
-                try:
-                    import copy
-                    copy.deepcopy(fs).rename(st[2], st[3])
-                    ok_rename = True
-                except Err:
-                    ok_rename = False
-            if k == "file":
-                feats.add("RenameFileAny")
-                ino = fs.lookup(st[2])[1]
-                if st[2] == st[3]:
-                    feats.add("RenameSelf")
-                elif ok_rename:
-                    if kd == "file":
-                        feats.add("RenameOverFile")
-                    if (ino in dur.dirty or (kd == "file" and fs.lookup(st[3])[1] in dur.dirty)
-                            or any(r["ino"] == ino for r in pend_ren[h]) or st[3] in gone_before):
-                        feats.add("RenameFile")   # unsynced data (source, or the file it replaces), onto a name whose
-                                                  # file was removed since the last crash, or renamed again while the
-                                                  # previous rename is not yet flushed
-                    else:
-                        feats.add("CleanRename")
-                        pend_ren[h].append({"ino": ino, "f": st[2], "t": st[3]})
-            elif k == "dir":
-                feats.add("RenameDir")
+            feats.add("RenameFileAny")
+            if st[2] != st[3] and fs.kind(st[3]) == "file":
+                feats.add("RenameOverFile")
+            if gh.clean_rename(st, dur):
+                feats.add("CleanRename")
         if name in ("rmdir", "rmdir_all") and fs.kind(st[2]) == "dir":
             feats.add("RemoveDir")
-            gone_dirs[h].add(st[2])
-            if name == "rmdir_all":
-                for q in UNIVERSE + ["/e", "/g/e", "/e/a", "/g/e/a"]:
-                    if is_prefix(st[2], q) and fs.kind(q) == "dir":
-                        gone_dirs[h].add(q)
-                    if is_prefix(st[2], q) and fs.kind(q) == "file":
-                        gone[h].add(q)
         if name in ("mkdir", "mkdir_all") and fs.kind(st[2]) is None:
             feats.add("Mkdir")
-            if name == "mkdir" and st[2] in gone[h]:
-                feats.add("KindSwap")
-            if name == "mkdir_all":
-                cs = comps(st[2])
-                for k2 in range(1, len(cs) + 1):
-                    q = "/" + "/".join(cs[:k2])
-                    if fs.kind(q) is None and q in gone[h]:
-                        feats.add("KindSwap")
-        if name in ("rmdir", "rmdir_all", "unlink", "rename", "open", "spit", "mkdir") and "/" in st[2:4]:
-            feats.add("RootOp")
-        # a handle whose path no longer names its inode
-        for slot, hd in fs.handles.items():
-            p = open_paths[h].get(slot)
-            if p is not None:
-                try:
-                    r = fs.lookup(p)
-                except Err:
-                    r = None
-                if r is None or r[0] != "file" or r[1] != hd["ino"]:
-                    if name in ("write_at", "read_at", "write", "read", "seek", "set_len", "flen", "sync_all", "sync_data") and st[2] == slot:
-                        feats.add("StaleHandle")
-        wr = durs[h].before(st)
-        exp = spec_step(hosts, st)
-        durs[h].after(st, exp, decs[si] if si < len(decs) else [], wr)
-        if name == "open" and fs.h(st[2]) is not None:
-            open_paths[h][st[2]] = st[3]
+        gh.update(st, dur)
+        wr = dur.before(st)
+        exp = spec_step([d.fs for d in durs], st)
+        dur.after(st, exp, decs[si] if si < len(decs) else [], wr)
+        gh.after_open(st, dur.fs)
     return feats
 
 
